@@ -27,6 +27,12 @@ pub enum Repr {
     AffineRt,
     /// rescaled so that the Jacobian X (which = 0) or Y (which = 1) coordinate equals a constant
     AimCoord { which: u8, target: String },
+    /// -(-P): the negation's output representation, twice
+    NegNeg,
+    /// h*G + h*G with 2h = k: what the adder's doubling path leaves behind
+    Doubled,
+    /// P + (T - T) or (T - T) + P: added to an identity made by cancellation
+    PlusId { left: bool },
 }
 
 impl Repr {
@@ -38,6 +44,10 @@ impl Repr {
             Repr::Rescaled(_) => "rescaled",
             Repr::AffineRt => "affine_rt",
             Repr::AimCoord { .. } => "aim_coord",
+            Repr::NegNeg => "neg_neg",
+            Repr::Doubled => "doubled",
+            Repr::PlusId { left: true } => "id_plus",
+            Repr::PlusId { left: false } => "plus_id",
         }
     }
 }
@@ -98,6 +108,26 @@ fn make_repr<G: LibG>(k: &BigUint, from_x: &Option<FromX>, repr: &Repr) -> G {
         Repr::AimCoord { which, target } => {
             let t = from_be(&unhex(target)) % model::q();
             base.aim(*which, &t).and_then(|lam| base.rescale(&lam)).unwrap_or(base)
+        }
+        Repr::NegNeg => -(-base),
+        Repr::Doubled => {
+            if from_x.is_some() {
+                let t = base + base;
+                t - base
+            } else {
+                let half = (k * model::minv(&BigUint::from(2u32), r).unwrap()) % r;
+                let h = G::one() * fr_of(&half);
+                h + h
+            }
+        }
+        Repr::PlusId { left } => {
+            let t = G::one() * fr_of(&BigUint::from(3u32));
+            let o = t - t;
+            if *left {
+                o + base
+            } else {
+                base + o
+            }
         }
     }
 }
@@ -1358,6 +1388,13 @@ fn round_trip<G: LibG, F: RF>(k: &BigUint, from_x: &Option<FromX>, interfere: bo
                         if d.enc(*fmt) != e {
                             return Err(("I10.3".into(), format!("{} {}: re-encoding the decoded point differs for {}*generator", G::NAME, fmt.name(), hex(&be32(k)))));
                         }
+                        // the decoded value is one more representative of P: all its encodings,
+                        // not only the format it arrived in, are those of P's affine coordinates
+                        for (fj, f2) in FMTS.iter().enumerate() {
+                            if d.enc(*f2) != refs[fj] {
+                                return Err(("I10.3".into(), format!("{}: the value decoded from the {} format re-encodes in the {} format to something other than the SM9 format of its point, for {}*generator ('{}')", G::NAME, fmt.name(), f2.name(), hex(&be32(k)), repr.name())));
+                            }
+                        }
                     }
                 }
                 encs.push(e);
@@ -1446,6 +1483,7 @@ pub fn generate10(seed: u64, index: u64) -> Wire10Spec {
         };
         ops.push(Repr::AimCoord { which: pr.below(2) as u8, target: hex(&be32(&t)) });
     }
+    ops.push(pr.pick(&[Repr::NegNeg, Repr::Doubled, Repr::PlusId { left: true }, Repr::PlusId { left: false }]).clone());
     let from_x = if g == Grp::G1 && pr.chance(1, 4) { Some(boundary_x(&mut pr)) } else { None };
     let interfere = pr.chance(1, 3);
     Wire10Spec { g, k: hex(&be32(&k)), from_x, interfere, budget: DEFAULT_BUDGET, ops }
